@@ -1,7 +1,7 @@
 (* C22 — proofs *)
 From Coq Require Import ZArith List Bool Arith Lia.
 Import ListNotations.
-From Cffi Require Import C22.Model C22.Spec.
+From Cffi Require Import C22.Model C22.Spec C22.Gen.
 Open Scope Z_scope.
 
 (* ---- frame: with per-thread cells a step of t changes only t's view *)
@@ -156,3 +156,75 @@ Definition witness_sched : list (nat * op) :=
 Lemma shared_saved_breaks_isolation :
   obs_of 0 (snd (crun true cs0 witness_sched)) <> snd (run1 ts0 (ops_of 0 witness_sched)).
 Proof. vm_compute. discriminate. Qed.
+
+(* ---- the regenerated call paths instantiate the abstract operations *)
+Lemma run1_snoc : forall body s o,
+  run1 s (body ++ [o]) =
+  (fst (step1 (fst (run1 s body)) o),
+   snd (run1 s body) ++ match snd (step1 (fst (run1 s body)) o) with Some x => [x] | None => [] end).
+Proof.
+  intros. rewrite run1_app. cbn [run1]. destruct (step1 (fst (run1 s body)) o) as [s1 [x|]]; reflexivity.
+Qed.
+
+Lemma exec_call_bracket : forall body s,
+  exec_path call_bracket body s = run1 s (OCallEnter :: body ++ [OCallExit]).
+Proof.
+  intros. unfold call_bracket. cbn [exec_path]. rewrite run1_cons. cbn [step1 fst snd]. fold (restore_fn s).
+  rewrite run1_snoc. cbn [step1 fst snd]. destruct (run1 (restore_fn s) body) as [s1 o1]. cbn [fst snd].
+  unfold save_fn. reflexivity.
+Qed.
+
+Lemma exec_cb_bracket : forall body s,
+  exec_path cb_bracket body s = run1 s (OCbEnter :: body ++ [OCbExit]).
+Proof.
+  intros. unfold cb_bracket. cbn [exec_path]. rewrite run1_cons. cbn [step1 fst snd]. fold (save_fn s).
+  rewrite run1_snoc. cbn [step1 fst snd]. destruct (run1 (save_fn s) body) as [s1 o1]. cbn [fst snd].
+  unfold restore_fn. reflexivity.
+Qed.
+
+Lemma gen_call_paths :
+  gen_b_call = call_bracket /\ gen_api_wrapper = call_bracket /\ gen_glob_fetch = call_bracket /\
+  gen_invoke_callback = cb_bracket /\ gen_call_python = cb_bracket /\
+  gen_api_export_slots_ok = true /\ gen_posix_aliases = true /\
+  gen_save_errno_only_copies_errno_to_saved = true /\ gen_restore_errno_only_copies_saved_to_errno = true.
+Proof. repeat split; reflexivity. Qed.
+
+Lemma gen_paths_are_the_model : forall body s,
+  exec_path gen_b_call body s = run1 s (OCallEnter :: body ++ [OCallExit]) /\
+  exec_path gen_api_wrapper body s = run1 s (OCallEnter :: body ++ [OCallExit]) /\
+  exec_path gen_glob_fetch body s = run1 s (OCallEnter :: body ++ [OCallExit]) /\
+  exec_path gen_invoke_callback body s = run1 s (OCbEnter :: body ++ [OCbExit]) /\
+  exec_path gen_call_python body s = run1 s (OCbEnter :: body ++ [OCbExit]).
+Proof.
+  intros. destruct gen_call_paths as (-> & -> & -> & -> & -> & _).
+  repeat split; first [apply exec_call_bracket | apply exec_cb_bracket].
+Qed.
+
+Lemma gen_get_errno_is_OGet : forall s,
+  exec_e gen_get_errno 0 s None = (fst (step1 s OGet), Some (saved s)) /\
+  snd (step1 s OGet) = Some (ObsVal (saved s)).
+Proof. intros. split; reflexivity. Qed.
+
+Lemma gen_set_errno_is_OSet : forall s v, in_int v = true ->
+  exec_e gen_set_errno v s None = (fst (step1 s (OSet v)), None) /\
+  (fst gen_set_errno_range <=? v) && (v <=? snd gen_set_errno_range) = true.
+Proof.
+  intros s v H. split.
+  - cbn. rewrite H. reflexivity.
+  - exact H.
+Qed.
+
+Lemma gen_set_errno_range_is_int : gen_set_errno_range = (int_min, int_max).
+Proof. reflexivity. Qed.
+
+(* the non-interference theorem for the storage class the source declares *)
+Lemma noninterference_gen : forall sch t,
+  obs_of t (snd (crun (negb gen_saved_thread_local) cs0 sch)) = snd (run1 ts0 (ops_of t sch)).
+Proof. exact noninterference. Qed.
+
+Lemma zero_is_first_class : forall s,
+  snd (run1 s [OSet 0; OCallEnter; OCRead]) = [ObsVal 0] /\
+  snd (run1 s [OCallEnter; OCSet 0; OCallExit; OGet]) = [ObsVal 0] /\
+  snd (run1 s [OCallEnter; OCbEnter; OSet 0; OCbExit; OCRead]) = [ObsVal 0] /\
+  snd (run1 s [OCallEnter; OCSet 0; OCbEnter; OGet]) = [ObsVal 0].
+Proof. intros; repeat split; reflexivity. Qed.
